@@ -231,7 +231,7 @@ def run_job(job, wd, seed):
                 R['detail'] = 'translation validation failed: ' + json.dumps(tv)[:1500]; return R
         cmd = cbmc_cmd(job, cfile, ['--json-ui', '--verbosity', '8'])
         R['cmd'] = ' '.join(a.replace(wd, '$WD').replace(VERIF, '/verif') for a in cmd)
-        r = sh(['/usr/bin/time', '-f', 'RSSKB %M'] + cmd, timeout=job.timeout, mem_gb=job.mem_gb)
+        r = sh(['/usr/bin/time', '-f', 'RSSKB %M'] + cmd, timeout=job.timeout, mem_gb=job.mem_gb * 3)   # address-space limit: minisat's region realloc needs old + new mapped (observed: 'out of memory' at 4.9 GB resident under a 20 GB limit)
         m = re.search(r'RSSKB (\d+)', r['err']); R['rss_mb'] = int(m.group(1)) // 1024 if m else None
         R['cbmc_s'] = round(r['s'], 2)
         if r['timeout']:
